@@ -44,9 +44,10 @@ def enc_coord_values(a):
 
 
 def enc_identity(da):
-    names = sorted(str(k) for k in da.coords)
-    cnames = ["%s(%s)" % (k, ",".join(map(str, da.coords[k].dims))) for k in names]
-    cvals = [enc_coord_values(da.coords[k].values) for k in names]
+    cv = da.coords.variables                 # Variables, not DataArrays: much cheaper to read
+    names = sorted(str(k) for k in cv)
+    cnames = ["%s(%s)" % (k, ",".join(map(str, cv[k].dims))) for k in names]
+    cvals = [enc_coord_values(cv[k].values) for k in names]
     attrs = sorted("%s=%r" % (k, v) for k, v in da.attrs.items())
     return [str(d) for d in da.dims], cnames, cvals, attrs
 
